@@ -288,6 +288,11 @@ def embeddings():
         ("struct/_root", lambda mk: ["Struct", [["m", mk(["path", ["_root", "n"]])]]], False),
         ("struct/this(no _)", lambda mk: ["Struct", [["m", mk(TH)]]], False),
         ("keyless container", lambda mk: ["Struct", [["m", mk(["path", ["_", "a", "n"]])]]], False),
+        # the repetition index is only known while parsing / building: a size that depends on it cannot be stated
+        ("index/array-of-struct", lambda mk: ["Array", 3, ["Struct", [["m", mk(["bin", "+", ["path", ["_index"]], ["k", 1]])]]]], False),
+        ("index/array", lambda mk: ["Array", 3, mk(["bin", "+", ["path", ["_index"]], ["k", 1]])], False),
+        ("index/nested", lambda mk: ["Array", 2, ["Struct", [["s", ["Struct", [["m", mk(["bin", "+", ["path", ["_", "_index"]], ["k", 1]])]]]]]]], False),
+        ("index/no-repeater", lambda mk: ["Struct", [["m", mk(["bin", "+", ["path", ["_index"]], ["k", 1]])]]], False),
     ]
 
 
